@@ -383,6 +383,7 @@ type summary struct {
 	Prop        string             `json:"prop"`
 	Runs        int                `json:"runs"`
 	Skipped     int                `json:"skipped"`
+	Abandoned   int                `json:"abandoned"`
 	Nontrivial  int                `json:"nontrivial"`
 	Steps       int64              `json:"steps"`
 	Switches    int64              `json:"switches"`
@@ -444,6 +445,10 @@ func historyReplay(bin string, p *propDef, tier string, seed, from, idx uint64, 
 	return ok && at == idx, msg
 }
 
+// historyDeadline bounds all history replays of one check (they re-execute whole
+// batches): when it has passed, remaining unreproduced alarms stay unreported.
+var historyDeadline = time.Now().Add(5 * time.Minute)
+
 // historyScan executes count runs starting at from in a fresh worker (no re-runs,
 // no minimisation, so the process history is exactly those runs) and returns the
 // first violation of the class.
@@ -452,8 +457,11 @@ func historyScan(bin string, p *propDef, tier string, seed, from, count uint64, 
 	os.Remove(out)
 	runDir := filepath.Join(scratch, "hist")
 	os.MkdirAll(runDir, 0o755)
+	if time.Now().After(historyDeadline) {
+		return false, "", 0
+	}
 	cmd := workerCmd(bin, runDir, map[string]string{"VSIM_PROP": p.ID, "VSIM_TIER": tier, "VERIF_SEED": strconv.FormatUint(seed, 10), "VSIM_FROM": strconv.FormatUint(from, 10),
-		"VSIM_COUNT": strconv.FormatUint(count, 10), "VSIM_OUT": out, "VSIM_TMP": runDir, "VSIM_MAX_VIOL": "50", "VSIM_NO_MINIMISE": "1", "VSIM_DET_EVERY": "0"})
+		"VSIM_COUNT": strconv.FormatUint(count, 10), "VSIM_OUT": out, "VSIM_TMP": runDir, "VSIM_MAX_VIOL": "50", "VSIM_NO_MINIMISE": "1", "VSIM_DET_EVERY": "0", "VSIM_WALL_S": "90"})
 	cmd.Run()
 	b, err := os.ReadFile(out)
 	if err != nil {
@@ -805,6 +813,7 @@ func runCheck(id, tier string) int {
 		s := br.sum
 		agg.Runs += s.Runs
 		agg.Skipped += s.Skipped
+		agg.Abandoned += s.Abandoned
 		agg.Nontrivial += s.Nontrivial
 		agg.Steps += s.Steps
 		agg.Switches += s.Switches
@@ -1063,6 +1072,7 @@ func runCheck(id, tier string) int {
 		"samples":                       samples,
 		"simulated_runs":                agg.Runs,
 		"runs_skipped_by_generator":     agg.Skipped,
+		"runs_abandoned_after_75s_real": agg.Abandoned,
 		"runs_per_hour":                 int64(runsPerHour),
 		"seeds_per_hour":                int64(runsPerHour),
 		"scheduling_steps":              agg.Steps,
